@@ -97,6 +97,11 @@ class ExchangeMove(
         """
         self.to_add_atoms = self.to_add_atoms or context.exchange_atoms
 
+        if not len(self.to_add_atoms):
+            # nothing to insert (e.g. no exchange atoms configured): `[-0:]` below would
+            # select every atom, and a failed or rejected trial would delete them all
+            return []
+
         context.atoms.extend(self.to_add_atoms)
         context._moving_indices = np.arange(len(context.atoms))[
             -len(self.to_add_atoms) :
